@@ -283,6 +283,19 @@ def judge_history(case) -> Verdict:
             elif name == "port_nr":
                 p.port_nr = bool(op[1])
                 cur["port_nr"] = bool(op[1])
+            elif name == "scribble":
+                # a caller edits the list a getter handed out (nothing is claimed about THAT object afterwards);
+                # an object created next from the same text must not have been touched by it
+                got = getattr(p, "ports" if op[1] == "ports" else "items")
+                if isinstance(got, list):
+                    if op[2] == "append":
+                        got.append(8080)
+                    elif op[2] == "clear":
+                        got.clear()
+                    elif got:
+                        got[0] = 4711
+                _, p = build(cur)
+                views.add("fresh-after-scribble")
             elif name == "swap-op":
                 # same operands, other operator (gt N <-> lt N, eq list <-> neq list)
                 other = {"gt": "lt", "lt": "gt", "eq": "neq", "neq": "eq"}.get(cur["op"])
@@ -332,8 +345,10 @@ def history_case(draw):
     init.pop("slow", None)
     ops = []
     for _ in range(draw(st.integers(2, 8))):
-        kind = draw(st.sampled_from(["items", "ports", "sport", "sport", "port_nr", "line", "swap-op"]))
-        if kind == "port_nr":
+        kind = draw(st.sampled_from(["items", "ports", "sport", "sport", "port_nr", "line", "swap-op", "scribble"]))
+        if kind == "scribble":
+            ops.append(["scribble", draw(st.sampled_from(["ports", "items"])), draw(st.sampled_from(["append", "clear", "first"]))])
+        elif kind == "port_nr":
             ops.append(["port_nr", draw(st.booleans())])
         elif kind == "line":
             new = draw(obj_case())
